@@ -17,6 +17,7 @@ package yang
 import (
 	"fmt"
 	"sort"
+	"strings"
 	"sync"
 )
 
@@ -94,8 +95,11 @@ func (mod *Module) findIdentityBase(baseStr string) (*resolvedIdentity, []error)
 	source := Source(mod)
 	typeDict := mod.Modules.typeDict
 
-	switch basePrefix {
-	case "", rootPrefix:
+	switch {
+	case strings.HasPrefix(baseStr, ":"):
+		// A prefix is an identifier: ":name" refers to nothing.
+		errs = append(errs, fmt.Errorf("%s: can't resolve the base %s: it has an empty prefix", source, baseStr))
+	case basePrefix == "", basePrefix == rootPrefix:
 		// This is a local identity which is defined within the current
 		// module
 		owner := module(mod)
